@@ -10,5 +10,6 @@ CONSTANTS
   Horizon = 0
   MaxEx = 9
   ProbeNs <- NoProbes
+  ProbeUids <- UidsOwn
 VIEW view
 INVARIANTS ReqFits
